@@ -52,7 +52,7 @@ def vshape(v) -> str:
 
 def shapes(depth: int) -> list:
     """Exhaustive small scope: every container kind over every representative child."""
-    leaves = [int, str, T.Any, T.Optional[int], T.Literal[1, 'a'], gen.U0, type[int], A.Iterator[int],
+    leaves = [int, str, T.Any, T.Optional[int], T.Literal[1, 'a'], T.Literal[True, 1], T.Literal[-2], T.Literal[-1], gen.U0, type[int], A.Iterator[int],
               T.Annotated[int, gen.IS_VALIDATORS[2]], T.Annotated[T.Any, gen.IS_VALIDATORS[3]], gen.TV_BOUND, int | str,
               # wide but NOT ignorable leaves: abstract classes nearly everything satisfies, user protocol / generics
               A.Hashable, A.Sized, gen.Proto, gen.Box[int], type(None)]
@@ -375,6 +375,7 @@ def run(ck, n_hints: int, seed: int, focus: str, depth: int = 3, exhaustive_dept
     ex.evaluations = len(flat)
     group = {}
     rejecting = []
+    rejecting_per_shape = collections.Counter()
     for (h, x, cn, d, hm, sat, chk, ev) in flat:
         evb = (ev[0] == 'true') if isinstance(ev, list) else ev
         if evb != chk:   # the Lean theorem says this cannot happen
@@ -386,8 +387,13 @@ def run(ck, n_hints: int, seed: int, focus: str, depth: int = 3, exhaustive_dept
         v = real.verdicts(x, h, cs[cn], d)
         ex.traces_validated += 1
         verdict_split['accept' if chk else 'reject'] += 1
-        if not chk and cn == 'default' and len(rejecting) < 600 and not is_gen:
-            rejecting.append((h, x, d, hm))
+        if not chk and cn == 'default' and not is_gen:
+            # stratified: at most two rejected cases per hint shape, so that every hint family reaches the signal oracle
+            # (a flat cap filled up with the first few dozen hints of the exhaustive list)
+            sk_ = shape(hm)
+            if rejecting_per_shape[sk_] < 2 and len(rejecting) < 2500:
+                rejecting_per_shape[sk_] += 1
+                rejecting.append((h, x, d, hm))
         if sat or not chk:
             sk = (shape(hm), sat, chk)
             if sk not in seen_shapes and ('(' in sk[0]):
@@ -618,11 +624,19 @@ def consume_oracle(ex, usable, og, cs, fail, reg=None):
                 rb = repr(x) if maker in ('defaultdict', 'plain') else None
             except Exception:
                 rb = None
-            for cn in ('default', 'nonrandom'):
+            for cn in ('default', 'nonrandom', 'On'):
                 for f in (is_bearable, die_if_unbearable):
                     real.DRAW[0] = 1
                     try:
                         f(x, h, conf=cs[cn])
+                    except Exception:
+                        pass
+            if maker.endswith('oneshot') or maker in ('generator', 'iterator'):
+                # the same object as a conforming SIBLING of a violation: the violation finder walks past it (every strategy)
+                for cn in ('default', 'On'):
+                    real.DRAW[0] = 1
+                    try:
+                        die_if_unbearable((x, 2.5 + 1j), tuple[h, int], conf=cs[cn])
                     except Exception:
                         pass
             n += 1
@@ -716,7 +730,7 @@ def signal_oracle(ex, rejecting, fail):
     kinds = collections.Counter()
     rng = random.Random(len(rejecting))
     for (h, x, d, hm) in rejecting:
-        for (vt, spec, strat, verb, color, (pt, rt)) in rng.sample(variants, 5):
+        for (vt, spec, strat, verb, color, (pt, rt)) in rng.sample(variants, 4):
             kw = dict(strategy=strat, violation_verbosity=verb, is_color=color)
             if vt is not None:
                 kw['violation_type'] = vt
